@@ -545,6 +545,92 @@ func (c *checker) checkTree(treeNo int, via string, keys []string, exhaustive bo
 				r.Violation("Root:unchanged-after-key-change:"+pl, fmt.Sprintf("size %d: key of node %d (%s) changed, root still %v", n, i, pl, root), ww)
 			}
 		})
+
+		// the same rebuild, but the Writer is fed nodes that already carry hashes:
+		// "from-tree" = the nodes of the valid tree with node i relabelled (its stale hash kept),
+		// "foreign"   = every node carries a hash that belongs to nothing.
+		ref2 := refHashes(k2)
+		for _, variant := range []string{"from-tree", "foreign"} {
+			src := make([]fixedtree.Node, n)
+			for j := range src {
+				switch {
+				case variant == "foreign":
+					src[j] = fixedtree.NewBaseNode(k2[j]).SetHash(flipHash(rng, ref[(j+1)%n]))
+				case j == i:
+					src[j] = fixedtree.NewBaseNode(k2[j]).SetHash(nodes[j].Hash())
+				default:
+					src[j] = nodes[j]
+				}
+			}
+			vw := w
+			vw.Mutation = "rebuild-" + variant + "-with-key " + k2[i]
+			r.Case(fmt.Sprintf("rh/n=%d/i=%d/%s", n, i, variant))
+			r.Count("rebuilds_from_hashed_nodes_"+variant, 1)
+			sigp := "Writer.rebuild-from-hashed-nodes:" + variant + ":"
+			r.Guard(sigp+"panic", vw, func() {
+				wr, err := fixedtree.NewWriter(treeHint, uint64(n))
+				if err == nil {
+					for j := range src {
+						if err = wr.Add(uint64(j), src[j]); err != nil {
+							break
+						}
+					}
+				}
+				var t2 fixedtree.Tree
+				if err == nil {
+					t2, err = wr.Tree()
+				}
+				if err != nil {
+					vw.Err = err.Error()
+					r.Violation(sigp+"error", fmt.Sprintf("size %d: Writer failed on nodes that carry hashes: %v", n, err), vw)
+					return
+				}
+				if err := t2.IsValid(nil); err != nil {
+					vw.Err = err.Error()
+					r.Violation(sigp+"built-tree-invalid:"+pl, fmt.Sprintf("size %d: tree built by the Writer from hashed nodes (key of node %d, %s, changed) does not validate: %v", n, i, pl, err), vw)
+					return
+				}
+				if t2.Root().Equal(root) {
+					r.Violation(sigp+"root-unchanged-after-key-change:"+pl, fmt.Sprintf("size %d: key of node %d (%s) changed, root still %v", n, i, pl, root), vw)
+					return
+				}
+				for j := 0; j < n; j++ {
+					if nd := t2.Node(uint64(j)); nd == nil || nd.Key() != k2[j] || nd.Hash() == nil || !nd.Hash().Equal(ref2[j]) {
+						r.Violation(sigp+"node-hash-not-hash-of-key-and-children", fmt.Sprintf("size %d node %d after rebuild: %v, reference %v", n, j, nd, ref2[j]), vw)
+						return
+					}
+				}
+				// proofs against the new root: the changed key, root, last, and all keys of small trees
+				pk := []int{i, 0, n - 1}
+				if n <= 24 {
+					pk = pk[:0]
+					for j := 0; j < n; j++ {
+						pk = append(pk, j)
+					}
+				}
+				for _, j := range pk {
+					p, err := t2.Proof(k2[j])
+					if err == nil {
+						err = p.IsValid(nil)
+					}
+					if err == nil {
+						err = p.Prove(k2[j])
+					}
+					if err == nil {
+						if ns := p.Nodes(); !ns[len(ns)-1].Hash().Equal(t2.Root()) {
+							err = fmt.Errorf("proof does not end in the new root")
+						}
+					}
+					if err != nil {
+						vw.Err = err.Error()
+						r.Violation(sigp+"proof-of-key-fails-against-new-root", fmt.Sprintf("size %d: after rebuild with key of node %d changed, proof of key index %d: %v", n, i, j, err), vw)
+						return
+					}
+					r.Count("proofs_verified_after_rebuild", 1)
+				}
+				r.Count("rebuilds_from_hashed_nodes_ok", 1)
+			})
+		}
 	}
 }
 
@@ -574,7 +660,7 @@ func genKeys(rng interface{ Intn(int) int }, n int) []string {
 func TestC12(t *testing.T) {
 	r := vlib.Start(t, "C12", vlib.LevelExploration)
 	defer r.Finish()
-	r.SetRule("case = one oracle evaluation on a tree built by the real fixedtree.Writer from PRNG keys: tree built+validated+compared node by node with an integer reference (children 2i+1, 2i+2); one key's extracted proof (IsValid, Prove(key), last node == Tree.Root); one single mutation of that proof (key/hash/emptiness of one proof node, swap of two non-equal proof nodes) judged by IsValid && Prove(key) && root==tree root; one forged membership proof (a proof node relabelled to, or replaced by a self-consistent leaf of, a key K' that is in no tree node, optionally with leading pairs dropped so K' sits in the first pair or is a lone root) judged by IsValid && Prove(K') && root==tree root; one tree-node key/hash mutation judged by Tree.IsValid; one rebuild with one key changed judged by the root. sizes 1..E exhaustive over every key, every proof position and every tree node; larger sizes sampled (all 2^k-1, 2^k, 2^k+1 included). distinct = (size, key index, mutation kind, positions)")
+	r.SetRule("case = one oracle evaluation on a tree built by the real fixedtree.Writer from PRNG keys: tree built+validated+compared node by node with an integer reference (children 2i+1, 2i+2); one key's extracted proof (IsValid, Prove(key), last node == Tree.Root); one single mutation of that proof (key/hash/emptiness of one proof node, swap of two non-equal proof nodes) judged by IsValid && Prove(key) && root==tree root; one forged membership proof (a proof node relabelled to, or replaced by a self-consistent leaf of, a key K' that is in no tree node, optionally with leading pairs dropped so K' sits in the first pair or is a lone root) judged by IsValid && Prove(K') && root==tree root; one tree-node key/hash mutation judged by Tree.IsValid; one rebuild with one key changed judged by the root; the same rebuild with the Writer fed nodes that already carry hashes (nodes of the valid tree with one relabelled, or all with foreign hashes) judged by Tree.IsValid, the integer reference, new root != old root and the proofs of the changed/root/last (all, n<=24) keys against the new root. sizes 1..E exhaustive over every key, every proof position and every tree node; larger sizes sampled (all 2^k-1, 2^k, 2^k+1 included). distinct = (size, key index, mutation kind, positions)")
 	r.Assume("keys within one tree are distinct and non-empty (users key nodes by unique hashes)")
 	r.Assume("a mutated proof counts as rejected if Proof.IsValid fails, Prove(key) fails, or its last node's hash differs from the trusted tree root")
 	c := &checker{r: r}
@@ -643,7 +729,7 @@ func TestC12(t *testing.T) {
 			r.Sample(samples[i])
 		}
 	}
-	if r.Counter("proofs_verified") == 0 || r.Counter("proof_mutations_rejected") == 0 || r.Counter("tree_mutations_rejected") == 0 || r.Counter("forged_proofs_rejected") == 0 {
+	if r.Counter("proofs_verified") == 0 || r.Counter("proof_mutations_rejected") == 0 || r.Counter("tree_mutations_rejected") == 0 || r.Counter("forged_proofs_rejected") == 0 || r.Counter("rebuilds_from_hashed_nodes_ok") == 0 {
 		r.Inconclusive("no proof verified or no mutation judged")
 	}
 }
